@@ -174,6 +174,7 @@ inductive IntKind where
   | i64   -- int64 / uint64: all 64 bits
   | i32   -- int32 / enum: `int32(b&0x7F) << shift` keeps the low 32 bits; written as `uint64(int32)` (sign-extended)
   | u32   -- uint32
+  | u8    -- casttype to a `byte`-based Go type (`types.StakeStatus`): `StakeStatus(b&0x7F) << shift` keeps 8 bits
   | bool  -- `v != 0`
   deriving Repr, DecidableEq
 
@@ -181,6 +182,7 @@ inductive IntKind where
 def IntKind.trunc : IntKind → Nat → Nat
   | .i64, n => n % two64
   | .u32, n => n % two32
+  | .u8, n => n % 256
   | .i32, n => let m := n % two32; if m < two31 then m else m + (two64 - two32)
   | .bool, n => if n % two64 = 0 then 0 else 1
 
